@@ -49,7 +49,7 @@ impl Prop for C06 {
         Case { prog, labels: g.labels.iter().map(|s| s.to_string()).collect(), copy_then_mutate: g.copy_then_mutate }
     }
     fn check(&self, c: &Case) -> Outcome {
-        let d = differential(&c.prog, &DiffOpts::default());
+        let d = differential(&c.prog, &DiffOpts { lim: engine_core::model::Limits { max_arr: 600, ..engine_core::model::Limits::default() }, ..DiffOpts::default() });
         match to_outcome(d) {
             Err(o) => o,
             Ok((m, _src, mut o)) => {
